@@ -261,8 +261,20 @@ def _run(ctx, fc, source, seed, tmp, rc, ce):
     tags = {"source": source, "obs_mode": fc["obs_mode"], "empty_synthetic": empties > 0, "all_empty": empties == J, "undersampled": unsampled_events > 0}
     nt = (J >= 2 and len(set(N)) > 1) or empties > 0 or unsampled_events > 0 or n_obs == 0
 
+    # half of the cases evaluate ONE forecast object (and one observation object) with every test in turn - the way an experiment is run -
+    # instead of a fresh pair per test; the documented statistics do not depend on what was evaluated before (order of S / PL by seed)
+    shared = bool(seed % 2) and not fc.get("obs_below")
+    built = []
+
     def fresh():
+        if shared:
+            if not built:
+                built.append(build(fc, source, tmp))
+            return built[0]
         return build(fc, source, tmp)
+    tags["one_forecast_object_for_all_tests"] = shared
+    if shared:
+        ctx.mon("history:one-forecast-object-through-all-tests", 1)
     ctx.count(6)
     if fc.get("obs_below"):
         # the observation holds events below the lowest magnitude edge: only the magnitude-gridded tests have a defined reference here
@@ -299,7 +311,7 @@ def _run(ctx, fc, source, seed, tmp, rc, ce):
             ctx.nt(digest((fc, source)))
         return
     # ---------------- S and PL
-    for nm, fn, which in (("S", ce.spatial_test, 1), ("PL", ce.pseudolikelihood_test, 0)):
+    for nm, fn, which in (("S", ce.spatial_test, 1), ("PL", ce.pseudolikelihood_test, 0))[::(-1 if (seed // 2) % 2 else 1)]:
         f, obs, reg, mags = fresh()
         ok, res, tb = ctx.call(fn, f, obs, verbose=False)
         ctx.mon("e2e:" + nm, 1)
